@@ -324,8 +324,15 @@ func (s *scheduler) fireNextTimer() bool {
 	}
 	sort.SliceStable(act, func(i, j int) bool { return act[i].when < act[j].when })
 	t := act[0]
-	if len(act) > 1 && s.e.Cfg.SchedExplore >= 0 {
-		t = act[s.e.choose(len(act), "timer", nil)]
+	if s.e.Cfg.SchedExplore >= 0 {
+		// timers fire in time order; only timers due at the same instant are interchangeable
+		same := 1
+		for same < len(act) && act[same].when == t.when {
+			same++
+		}
+		if same > 1 {
+			t = act[s.e.choose(same, "timer", nil)]
+		}
 	}
 	if t.when > s.e.clock {
 		s.e.clock = t.when
